@@ -57,7 +57,7 @@ def res_term(s):
 class C18(Property):
     id = "C18"
     title = "Authentication gates: protected handlers run only for valid credentials"
-    quick_cases = 420
+    quick_cases = 1000
     thorough_cases = 9000
     design_ref = "DESIGN.md §6/C18"
     level_text = ("Unbounded Rocq theorems over decision models with abstract cryptography (mac, RSA inverse pair, block "
